@@ -43,4 +43,10 @@ PROPS = {
         quick=dict(runs=[dict(tests="^TestC07$", checks=250)], min_nontrivial=30),
         thorough=dict(runs=[dict(tests="^TestC07$", checks=800, shards=16, timeout=3000)], min_nontrivial=1000),
     ),
+    "C18": dict(
+        rule="fresh-sync worlds whose ingresses carry auth bundles: auth-url drawn from well-formed http/https URLs, svc:// with existing/missing service, missing port, cross-namespace, malformed and unknown-protocol values, placement backend/frontend/default, oauth with and without a matching /oauth2 path, oauth together with auth-url, external-has-lua on/off, auth-proxy ranges of size 0/1/2/85; several paths per backend of which only some are protected. Every request of the alphabet whose documented winner is a protected rule is evaluated through the frontend and backend rules with txn.auth_response_successful unset: reaching the servers is a violation; requests whose winner declares no access restriction must not be denied or intercepted. Non-trivial = the world has both a protected and an unprotected path; distinct by digest.",
+        assumptions=HAPCFG_ASSUMPTIONS + ["auth-url hosts are IP literals (no DNS in the sandbox)", "requests under an oauth allowed path (/oauth2/) are exempt"],
+        quick=dict(runs=[dict(tests="^TestC18$", checks=400)], min_nontrivial=50),
+        thorough=dict(runs=[dict(tests="^TestC18$", checks=2000, shards=16, timeout=3000)], min_nontrivial=3000),
+    ),
 }
